@@ -134,3 +134,69 @@ Proof.
     rewrite H0, Hadv, H0. reflexivity.
   - apply Nat.mod_small. lia.
 Qed.
+
+(* ---- every entry point ---- *)
+Definition erase (e : wire_event) : event :=
+  match e with Wire i _ o => Sent i o | WAssert => AssertFailed end.
+
+Lemma erase_on_wire c e : erase (on_wire c e) = e.
+Proof. destruct e; reflexivity. Qed.
+
+Lemma run_calls_from_erase (n : nat) : forall cs s,
+  map erase (fst (run_calls_from n s cs)) = fst (run_from n s (map snd cs)) /\
+  snd (run_calls_from n s cs) = snd (run_from n s (map snd cs)).
+Proof.
+  induction cs as [|[c o] r IH]; intros s.
+  - split; reflexivity.
+  - cbn [run_calls_from map snd]. unfold run_from in *. cbn [run_from_with].
+    fold (step n s o). destruct (step n s o) as [s' e].
+    specialize (IH s'). destruct (run_calls_from n s' r) as [es fin].
+    destruct (run_from_with always n s' (map snd r)) as [es' fin']. cbn [fst snd] in *.
+    destruct IH as [IH1 IH2]. split; [|exact IH2].
+    cbn [map]. now rewrite erase_on_wire, IH1.
+Qed.
+
+Lemma wire_target_erase e : wire_target e = target (erase e).
+Proof. destruct e; reflexivity. Qed.
+
+Lemma run_calls_targets (n : nat) (cs : list (call * outcome)) :
+  map wire_target (fst (run_calls n cs)) = targets (run n (map snd cs)).
+Proof.
+  unfold run_calls, targets, events, run.
+  destruct (run_calls_from_erase n cs 0) as [H _]. rewrite <- H, map_map.
+  apply map_ext. apply wire_target_erase.
+Qed.
+
+(* request i of a client driven through any mix of entry points goes to node i mod n *)
+Lemma ith_call_target (n : nat) (cs : list (call * outcome)) (i : nat) : 0 < n -> i < length cs ->
+  nth_error (map wire_target (fst (run_calls n cs))) i = Some (Some (i mod n)).
+Proof.
+  intros Hn Hi. rewrite run_calls_targets. apply ith_target; [exact Hn | now rewrite map_length].
+Qed.
+
+(* ... and arrives there with the HTTP method of the entry point used *)
+Lemma run_calls_methods (n : nat) : 0 < n -> forall cs s, s < n ->
+  map wire_method (fst (run_calls_from n s cs)) = map (fun co => Some (call_method (fst co))) cs.
+Proof.
+  intros Hn. induction cs as [|[c o] r IH]; intros s Hs; [reflexivity|].
+  cbn [run_calls_from]. unfold step, step_with. apply Nat.ltb_lt in Hs. rewrite Hs. cbn [always].
+  specialize (IH ((s + 1) mod n) (Nat.mod_upper_bound _ _ (Nat.neq_sym _ _ (Nat.lt_neq _ _ Hn)))).
+  destruct (run_calls_from n ((s + 1) mod n) r) as [es fin]. cbn [fst map on_wire wire_method] in *.
+  now rewrite IH.
+Qed.
+
+Lemma calls_methods (n : nat) (cs : list (call * outcome)) : 0 < n ->
+  map wire_method (fst (run_calls n cs)) = map (fun co => Some (call_method (fst co))) cs.
+Proof. intro Hn. apply run_calls_methods; assumption. Qed.
+
+Lemma calls_final (n : nat) (cs : list (call * outcome)) : 0 < n -> snd (run_calls n cs) = length cs mod n.
+Proof.
+  intro Hn. unfold run_calls. destruct (run_calls_from_erase n cs 0) as [_ H]. rewrite H.
+  change (snd (run_from n 0 (map snd cs))) with (final (run n (map snd cs))).
+  rewrite final_eq by exact Hn. now rewrite map_length.
+Qed.
+
+(* elapsed time is not an input *)
+Lemma timed_independent (n : nat) (tcs tcs' : list (BinNums.Z * (call * outcome))) :
+  map snd tcs = map snd tcs' -> run_timed n tcs = run_timed n tcs'.
+Proof. intro H. unfold run_timed. now rewrite H. Qed.
